@@ -14,6 +14,7 @@ interleaving semantics of `Model/Conc.lean`.
 -/
 import PromVerif.Lemmas.ConcSpec
 import PromVerif.Lemmas.ConcLog
+import PromVerif.Lemmas.ConcFile
 
 set_option linter.unusedSectionVars false
 
@@ -483,9 +484,8 @@ theorem foldr_incs (c : Nat) (l : List Nat) : (l.map some).foldr (lin (incAp Nat
 threads, of calls, of value objects); when all threads have finished, every counter holds its initial value plus the sum of
 ALL amounts the spec issues to it, whatever the schedule.
 `_partial` for the same reason as above: proved of the extracted lock protocol under the interleaving semantics; the link to
-the bytecode is sampled.  NOT proved here either: that the multiprocess store's FILE holds the same sum — the model's
-`write file` step does not carry the value written (that needs a two-cell invariant "file = value whenever the global lock is
-free"); the file is checked by the harness oracle on the real code (signature `C02:lost-update-in-file`). -/
+the bytecode is sampled.  That the multiprocess store's FILE holds the same sum is `file_equals_sum_of_issued_partial` below (there the `write file`
+step carries the value the thread holds); the real files are checked by the harness oracle `C02:lost-update-in-file`. -/
 theorem counter_equals_sum_of_issued_partial (bk : Backend) (spec : List (List (Nat × Nat))) (c0 : ICell → Nat)
     (sched : List Tid) (o : Nat) :
     let s := run (incAp Nat.add) (world c0 (incThreads bk spec)) sched
@@ -501,6 +501,150 @@ theorem counter_equals_sum_of_issued_partial (bk : Backend) (spec : List (List (
 
 /-- non-vacuity: the spec 1,2 | 3,4 | 5,6 on object 7 issues 21 -/
 example : (issued [[(7, 1), (7, 2)], [(7, 3), (9, 100), (7, 4)], [(7, 5), (7, 6)]] 7).sum = 21 := by decide
+
+/-! ### The file-backed store: the FILE holds the sum -/
+
+/-- the value attribute and its mmap file entry of value object `o` are the two components of the cell `(value, o)` -/
+def fileVar (o : Nat) : Var → ICell := fun x => if x = .file then (.value, o) else (x, o)
+
+/-- `inc(a)`: the store to `_value` adds `a` to what was loaded; the store to the file writes what the thread then holds -/
+def fileLab {M : Type} (a : M) : CLabel → FU M := fun x =>
+  match x.1 with
+  | .value => .inc a
+  | .file => .fileW
+  | _ => .other
+
+/-- the code of `MmapedValue.inc(a)` on value object `o`, from the extracted skeleton -/
+def fileIncCode {M : Type} (sk : List Sk) (o : Nat) (a : M) : List (Micro ILock ICell (FU M)) :=
+  (compile (canon 0) noCb sk).map (Micro.map (fun l => ((l, bindL o l) : ILock)) (fileVar o) (fileLab a))
+
+theorem fileIncCode_eq {M : Type} (o : Nat) (a : M) :
+    fileIncCode MmapedValue_inc o a =
+      [.acquire (.global, 0), .call false .processIdentifier, .load (.pid, o), .load (.value, o),
+       .store (.value, o) (.inc a), .store (.timestamp, o) .other, .load (.value, o), .load (.timestamp, o),
+       .store (.value, o) .fileW, .release (.global, 0)] := by
+  have h : compile (canon 0) noCb MmapedValue_inc =
+      [.acquire .global, .call false .processIdentifier, .load .pid, .load .value, .store .value (.value, 0),
+       .store .timestamp (.timestamp, 0), .load .value, .load .timestamp, .store .file (.file, 0),
+       .release .global] := rfl
+  simp [fileIncCode, h, Micro.map, fileVar, fileLab, bindL]
+
+/-- the extracted order `rmw _value; write file` inside one `with lock` is what the file theorem rests on: for every target
+value object the code of one `inc` is disciplined, in sync (the file write follows the increment before the lock is
+released) and issues exactly `+a` and one file write to its own cell -/
+theorem fileIncCode_facts {M : Type} (o o' : Nat) (a : M) :
+    ClosedP (fun l : ILock => decide (l = (LockId.global, 0))) (fun y : ICell => decide (y = (Var.value, o'))) FU.blind
+      (fileIncCode MmapedValue_inc o a) ∧
+    sync ((.global, 0) : ILock) ((.value, o') : ICell) (fileIncCode MmapedValue_inc o a) false = true ∧
+    stores ((.value, o') : ICell) (fileIncCode MmapedValue_inc o a) = if o = o' then [.inc a, .fileW] else [] := by
+  rw [fileIncCode_eq]
+  by_cases ho : o = o'
+  · subst ho
+    refine ⟨⟨?_, ?_⟩, ?_, ?_⟩ <;> simp [discP, endModeP, sync, stores, FU.blind]
+  · refine ⟨⟨?_, ?_⟩, ?_, ?_⟩ <;> simp [discP, endModeP, sync, stores, FU.blind, ho]
+
+/-- thread programs of the spec: lists of `(value object, amount)` increments -/
+def filePrograms {M : Type} (spec : List (List (Nat × M))) : List (List (Micro ILock ICell (FU M))) :=
+  spec.map (fun t => (t.map (fun oa => fileIncCode MmapedValue_inc oa.1 oa.2)).flatten)
+
+def issuedM {M : Type} (spec : List (List (Nat × M))) (o : Nat) : List M :=
+  (spec.flatten.filter (fun oa => decide (oa.1 = o))).map (fun oa => oa.2)
+
+theorem incsOf_append {M : Type} (l₁ l₂ : List (FU M)) : incsOf (l₁ ++ l₂) = incsOf l₁ ++ incsOf l₂ := by
+  induction l₁ with
+  | nil => rfl
+  | cons u r ih => cases u <;> simp [incsOf, ih]
+
+theorem incsOf_filePrograms {M : Type} (spec : List (List (Nat × M))) (c0 : ICell → M × M) (o : Nat) :
+    incsOf (pending ((.value, o) : ICell) (init c0 (filePrograms spec)).threads) = issuedM spec o := by
+  have hthread : ∀ t : List (Nat × M),
+      incsOf (stores ((.value, o) : ICell) ((t.map (fun oa => fileIncCode MmapedValue_inc oa.1 oa.2)).flatten)) =
+        (t.filter (fun oa => decide (oa.1 = o))).map (fun oa => oa.2) := by
+    intro t
+    induction t with
+    | nil => rfl
+    | cons oa r ih =>
+      rw [List.map_cons, List.flatten_cons, stores_append, incsOf_append, ih, (fileIncCode_facts oa.1 o oa.2).2.2]
+      by_cases ho : oa.1 = o <;> simp [ho, incsOf]
+  unfold pending init issuedM filePrograms
+  simp only [List.map_map]
+  induction spec with
+  | nil => rfl
+  | cons t r ih =>
+    simp only [List.map_cons, List.flatten_cons, Function.comp, List.filter_append, List.map_append, incsOf_append] at ih ⊢
+    rw [ih]
+    congr 1
+    exact hthread t
+
+/-- THE FILE HOLDS THE SUM (file-backed back-end).  Threads run the `inc` calls the spec lists for them, on any value objects;
+the file entry of every value starts equal to its in-memory value.  When all threads have finished, the FILE entry of every
+value object `o` — and its in-memory value — equals the initial value plus ALL amounts the spec issues to `o`, for any number
+of threads and any schedule, in any commutative monoid.  (The write to the file carries the value the thread holds after its
+`+=`; the theorem holds because the extracted skeleton keeps `rmw _value; write file` inside one `with lock`: file = value
+whenever the lock is free.)  This is the theorem the seeded mutant "write the file after releasing the lock" falsifies — see
+`file_write_outside_lock_loses_update`.  `_partial` like the other instance theorems: it is about the extracted protocol under
+the interleaving semantics; the harness oracle `C02:lost-update-in-file` checks the real files. -/
+theorem file_equals_sum_of_issued_partial {M : Type} (add : M → M → M)
+    (assoc : ∀ a b c, add (add a b) c = add a (add b c)) (comm : ∀ a b, add a b = add b a)
+    (spec : List (List (Nat × M))) (c0 : ICell → M × M) (hc0 : ∀ o, (c0 (.value, o)).2 = (c0 (.value, o)).1)
+    (sched : List Tid) (o : Nat) :
+    let s := run (apF add) (init c0 (filePrograms spec)) sched
+    finished s →
+      (s.cell (.value, o)).2 = (issuedM spec o).foldr (fun a v => add v a) (c0 (.value, o)).1 ∧
+      (s.cell (.value, o)).1 = (issuedM spec o).foldr (fun a v => add v a) (c0 (.value, o)).1 := by
+  intro s hf
+  have hpieces : ∀ p ∈ filePrograms spec,
+      disc ((.global, 0) : ILock) ((.value, o) : ICell) FU.blind p .out = true ∧
+      sync ((.global, 0) : ILock) ((.value, o) : ICell) p false = true := by
+    intro p hp
+    obtain ⟨t, _, rfl⟩ := List.mem_map.mp hp
+    constructor
+    · rw [disc_eq_discP]
+      refine (closedP_flatten _ _ _ _ ?_).1
+      intro q hq
+      obtain ⟨oa, _, rfl⟩ := List.mem_map.mp hq
+      exact (fileIncCode_facts oa.1 o oa.2).1
+    · refine sync_flatten _ _ _ ?_
+      intro q hq
+      obtain ⟨oa, _, rfl⟩ := List.mem_map.mp hq
+      exact (fileIncCode_facts oa.1 o oa.2).2.1
+  obtain ⟨dinv, sinv⟩ := fileInv_run (add := add) c0 (hc0 o) (filePrograms spec)
+    (fun p hp => (hpieces p hp).1) (fun p hp => (hpieces p hp).2) sched
+  have hfile := syncInv_finished sinv hf
+  have hval : (s.cell (.value, o)).1 = (issuedM spec o).foldr (fun a v => add v a) (c0 (.value, o)).1 := by
+    have hc := dinv.cellEq
+    have hp := dinv.perm
+    have he : pending ((.value, o) : ICell) (run (apF add) (init c0 (filePrograms spec)) sched).threads = [] :=
+      pending_finished _ hf
+    rw [he, List.append_nil] at hp
+    show ((run (apF add) (init c0 (filePrograms spec)) sched).cell (.value, o)).1 = _
+    rw [hc]
+    unfold cur
+    rw [fold_value, ← incsOf_filePrograms spec c0 o]
+    refine List.Perm.foldr_eq' (incsOf_perm hp) ?_ _
+    intro x _ y _ z
+    rw [assoc, assoc, comm x y]
+  exact ⟨hfile.trans hval, hval⟩
+
+/-- non-vacuity: 3 threads, spec 1,2 | 3,4 | 5,6 on object 7 (Nat): the run finishes with value = file = 21 -/
+example :
+    let s := run (apF Nat.add) (init (fun _ => (0, 0)) (filePrograms [[(7, 1), (7, 2)], [(7, 3), (7, 4)], [(7, 5), (7, 6)]]))
+      (List.replicate 60 (List.range 3)).flatten
+    finishedB s = true ∧ s.cell (.value, 7) = (21, 21) := by decide
+
+/-- seeded mutant C02-1: `inc()` leaves the lock before `self._file.write_value(key, value, …)` -/
+def mutFileOutside : List Sk :=
+  [.withLock .global [.callLib .processIdentifier, .read .pid, .rmw .value, .write .timestamp, .read .value], .write .file]
+
+/-- the counter-example the file theorem excludes: with the file write outside the scope the skeleton is not well locked, and
+the schedule "t0 increments and is pre-empted before its file write; t1 increments and writes 3; t0 writes its stale 1" ends
+with value 3 and FILE 1 — below the sum of the increments issued -/
+theorem file_write_outside_lock_loses_update :
+    wellLockedB .mmap mutFileOutside = false ∧
+    (let s := run (apF Nat.add) (init (fun _ => (0, 0))
+        [fileIncCode mutFileOutside 0 1, fileIncCode mutFileOutside 0 2])
+        ([0, 0, 0, 0, 0, 0, 0, 0] ++ [1, 1, 1, 1, 1, 1, 1, 1, 1] ++ [0])
+     finishedB s = true ∧ s.cell (.value, 0) = (3, 1)) := by decide
 
 /-- three threads × two increments (1,2 | 3,4 | 5,6) on value object 7 -/
 def demoThreads (bk : Backend) : List (List (Call (Option Nat))) :=
